@@ -8,8 +8,8 @@
    attribute `empty` reads, per layer (name, value the cell attribute reads, value in the layer)); wf_side = the
    representation invariant of a side (Proofs/CopyProofs.v); Inv = all sides well formed and pairwise separated. *)
 From Coq Require Import ZArith List Bool.
-From Mesa Require Import Generated.Tables Model.Copy Proofs.CopyProofs Proofs.CopyInvProofs Proofs.CopyFreshProofs
-  Proofs.CopyBridge.
+From Mesa Require Import Generated.Tables Model.Copy Model.CopyWorld Proofs.CopyProofs Proofs.CopyInvProofs
+  Proofs.CopyFreshProofs Proofs.CopyBridge Proofs.CopyWorldProofs.
 Import ListNotations.
 Open Scope Z_scope.
 
@@ -303,3 +303,156 @@ Proof.
   exists sd. split; [reflexivity|]. split; [apply (inv_ok _ I O sd E)|]. split; [apply (I2 O sd E)|].
   vm_compute in E. inversion E; subst. vm_compute. reflexivity.
 Qed.
+
+(* ================================================================================================== *)
+(* --- round 3: the world around the spaces (Model/CopyWorld.v) --------------------------------------- *)
+(* The correspondence now runs `run_world`: the state and step of Model/Copy.v unchanged, plus the Model objects
+   (registry model._agents incl. off-grid agents, model.grid, every agent's .model pointer), FixedAgents, agent.remove(),
+   user attributes in the instance __dict__ of cells, forgetting the members of an AgentSet, and
+   remove_property_layer("empty"); WCopy copies the space or the model that holds it. *)
+
+(* every world history without remove_property_layer("empty") keeps Inv and Inv2 of the embedded state - so EVERY theorem
+   above (independence, wiring, refinement, behaves-fresh) applies to worlds with copied models, off-grid and fixed agents,
+   kills and forgets - and the bookkeeping of models / pointers stays consistent *)
+Theorem C19_world_invariant : forall c ops, good_case c -> forallb no_delempty ops = true ->
+  Inv12 (w_st (wrun_states (init_world c) ops)) /\ WS (wrun_states (init_world c) ops).
+Proof. exact world_reachable. Qed.
+Print Assumptions C19_world_invariant.
+
+(* copying the MODEL (or a space from which the model is reached through an agent on the grid): the registry of the copy
+   lists agents with the same labels in the same order - OFF-GRID AGENTS INCLUDED -, all of them new objects; every agent of
+   the copied side points to the copy's model; the copy's model.grid is the copied space *)
+Theorem C19_model_copy : forall w src root sd m,
+  Inv12 (w_st w) -> WS w ->
+  nth_side (st_sides (w_st w)) src = Some sd -> model_of w src = Some m ->
+  Nat.leb MAX_SIDES (length (st_sides (w_st w))) = false ->
+  (root =? 1) || negb (Nat.eqb (length (agents_of (st_heap (w_st w)) (s_cells (sd_space sd)))) O) = true ->
+  let w' := fst (wcopy w src root) in
+  let h := st_heap (w_st w) in
+  let h' := st_heap (w_st w') in
+  let mid := length (w_models w) in
+  let reg' := nth mid (w_models w') [] in
+  map (lab h') reg' = map (lab h) (nth m (w_models w) [])
+  /\ (forall a, In a reg' -> (length (h_agents h) <= a)%nat)
+  /\ (exists sd', nth_error (st_sides (w_st w')) (length (st_sides (w_st w))) = Some sd' /\
+                  (forall a, In a reg' -> In a (FA sd')) /\
+                  forall la, In la (sd_tab sd') -> lookupn (snd la) (w_amodel w') = Some mid)
+  /\ nth mid (w_grid w') O = length (st_sides (w_st w))
+  /\ nth (length (st_sides (w_st w))) (w_smodel w') O = mid.
+Proof. exact wcopy_model. Qed.
+Print Assumptions C19_model_copy.
+
+(* what is carried.  User attributes in a cell's instance __dict__: exactly those of Network / Voronoi cells, none of a
+   grid cell (pickle_gridcell drops the __dict__) *)
+Theorem C19_user_attrs_carried : forall w src root sd m,
+  nth_side (st_sides (w_st w)) src = Some sd -> model_of w src = Some m ->
+  Nat.leb MAX_SIDES (length (st_sides (w_st w))) = false -> user_bounded w -> NoDup (cells_of sd) ->
+  let w' := fst (wcopy w src root) in
+  let nC := length (h_cells (st_heap (w_st w))) in
+  forall i name v, (i < length (cells_of sd))%nat ->
+    (In ((nC + i)%nat, name, v) (w_user w') <->
+     s_grid (sd_space sd) = false /\ In (nth i (cells_of sd) O, name, v) (w_user w)).
+Proof. exact wcopy_user. Qed.
+Print Assumptions C19_user_attrs_carried.
+
+Theorem C19_instance_dict_carried : forall h sd i, (i < length (cells_of sd))%nat ->
+  k_dict (getc (copy_heap h sd) (length (h_cells h) + i))
+  = if s_grid (sd_space sd) then [] else k_dict (getc h (nth i (cells_of sd) O)).
+Proof. exact copy_instance_dict. Qed.
+Print Assumptions C19_instance_dict_carried.
+
+(* hand-made connections (Cell.connect after construction) are NOT carried by any space type: the connections of a copied
+   cell are those of the space's description, whatever the source cell's connections were *)
+Theorem C19_handmade_connections_not_carried : forall h sd i, (i < length (cells_of sd))%nat ->
+  k_conns (getc (copy_heap h sd) (length (h_cells h) + i))
+  = map (fun kj => (fst kj, (length (h_cells h) + snd kj)%nat)) (nth i (s_geom (sd_space sd)) []).
+Proof. exact copy_conns_from_description. Qed.
+Print Assumptions C19_handmade_connections_not_carried.
+
+(* remove_property_layer("empty"): what the code does - the descriptor is gone, cell.empty is read from and written to the
+   instance __dict__ of each cell (add_agent / remove_agent keep writing it there) ... *)
+Theorem C19_remove_empty_effect : forall h sd c v, wf_side h sd -> In c (cells_of sd) ->
+  let h' := fst (del_empty_side h sd) in
+  cell_get h' c EMPTY = assoc EMPTY (k_dict (getc h' c)) /\
+  cell_set h' c EMPTY v = upd_cell h' c (fun co' => set_dict (assoc_set EMPTY v (k_dict co')) co').
+Proof. exact del_empty_effect. Qed.
+Print Assumptions C19_remove_empty_effect.
+
+(* forgetting: an AgentSet holds its members weakly.  When the program drops every strong reference the set is empty after
+   a collection - unless an agent was ever created with the side's model: Agent._ids keeps that model, hence its agents *)
+Theorem C19_agentset_forget : forall w s ss, nth_side (st_sets (w_st w)) s = Some ss ->
+  let w' := fst (wstep w (SForget s)) in
+  if nth (Z.to_nat s) (w_setpin w) true
+  then w' = w
+  else nth_error (st_sets (w_st w')) (Z.to_nat s) = Some {| ss_members := []; ss_tab := [] |} /\
+       (forall k, k <> Z.to_nat s -> nth_error (st_sets (w_st w')) k = nth_error (st_sets (w_st w)) k) /\
+       st_sides (w_st w') = st_sides (w_st w) /\ st_heap (w_st w') = st_heap (w_st w).
+Proof. exact forget_spec. Qed.
+Print Assumptions C19_agentset_forget.
+
+(* --- non-vacuity / documented refutations (round 3) --- *)
+(* a world in which agent 6 has left the grid and agent 7 was removed from the model; then the SPACE is deep-copied: the model
+   is reached through agent 1, so the off-grid agent 6 travels in the registry; 7 (deregistered, off-grid) does not *)
+Definition ex_wops : list wop :=
+  [Inner (Move 0 1 0); PlaceFixed 0 5 0; Inner (Move 0 6 1); Inner (Leave 0 6); Inner (Move 0 7 3); Kill 0 7;
+   SetUser 0 3 10 4].
+
+Example C19_example_world :
+  let w := wrun_states (init_world ex_case) ex_wops in
+  Inv12 (w_st w) /\ WS w /\
+  (exists sd, nth_side (st_sides (w_st w)) 0 = Some sd /\ model_of w 0 = Some O /\
+              negb (Nat.eqb (length (agents_of (st_heap (w_st w)) (s_cells (sd_space sd)))) O) = true) /\
+  let w' := fst (wcopy w 0 0) in
+  map (lab (st_heap (w_st w'))) (nth 1 (w_models w') []) = [1; 5; 6] /\
+  map (lab (st_heap (w_st w))) (nth 0 (w_models w) []) = [1; 5; 6] /\
+  (* the copy of FixedAgent 5 is fixed: moving it on the copy is refused *)
+  snd (wstep w' (Inner (Move 1 5 2))) = [-1; E_FIXED] /\
+  (* the grid copy dropped the user attribute of cell 3 *)
+  user_code w 3 10 = 4 /\ user_code w' 7 10 = NOATTR.
+Proof.
+  cbv zeta. destruct (world_reachable ex_case ex_wops C19_example_good eq_refl) as [I S].
+  split; [exact I|]. split; [exact S|]. clear I S. split.
+  - destruct (nth_side (st_sides (w_st (wrun_states (init_world ex_case) ex_wops))) 0) as [sd|] eqn:E;
+      [|vm_compute in E; discriminate].
+    exists sd. split; [reflexivity|]. split; [vm_compute; reflexivity|].
+    vm_compute in E. inversion E; subst. vm_compute. reflexivity.
+  - vm_compute. repeat split.
+Qed.
+
+(* hand-made connection: cell 0 of the source gets an extra connection (key 99 -> cell 3); the copy does not have it *)
+Example C19_example_handmade_connection :
+  let h := upd_cell (st_heap ex_pre) 0 (fun co => {| k_cls := k_cls co; k_idx := k_idx co; k_cap := k_cap co;
+                                                      k_agents := k_agents co; k_conns := k_conns co ++ [(99, 3%nat)];
+                                                      k_dict := k_dict co |}) in
+  exists sd, nth_error (st_sides ex_pre) 0 = Some sd /\
+    assoc 99 (k_conns (getc h 0)) = Some 3%nat /\
+    assoc 99 (k_conns (getc (copy_heap h sd) (length (h_cells h) + 0))) = None.
+Proof.
+  cbv zeta. destruct (nth_error (st_sides ex_pre) 0) as [sd|] eqn:E; [|vm_compute in E; discriminate].
+  exists sd. split; [reflexivity|]. vm_compute in E. inversion E; subst. split; vm_compute; reflexivity.
+Qed.
+
+(* ... and the copy of a grid whose "empty" layer was removed is NOT faithful in that attribute: cell 0 of the source reads
+   empty = 0 from its instance __dict__, the copied cell has no such attribute (C19_faithful needs wf_side, which requires
+   grid cells to have an empty instance __dict__; C19_world_invariant excludes DelEmpty for this reason) *)
+Example C19_remove_empty_copy_refuted :
+  let w := wrun_states (init_world ex_case) [DelEmpty 0; Inner (Move 0 1 0)] in
+  let w' := fst (wcopy w 0 0) in
+  exists sd sd', nth_error (st_sides (w_st w')) 0 = Some sd /\ nth_error (st_sides (w_st w')) 1 = Some sd' /\
+    map ac_empty (abs_side (st_heap (w_st w')) sd) = [Some 0; None; None; None] /\
+    map ac_empty (abs_side (st_heap (w_st w')) sd') = [None; None; None; None] /\
+    map ac_labels (abs_side (st_heap (w_st w')) sd') = map ac_labels (abs_side (st_heap (w_st w')) sd).
+Proof.
+  cbv zeta.
+  set (w' := fst (wcopy (wrun_states (init_world ex_case) [DelEmpty 0; Inner (Move 0 1 0)]) 0 0)).
+  destruct (nth_error (st_sides (w_st w')) 0) as [sd|] eqn:E0; [|vm_compute in E0; discriminate].
+  destruct (nth_error (st_sides (w_st w')) 1) as [sd'|] eqn:E1; [|vm_compute in E1; discriminate].
+  exists sd, sd'. split; [reflexivity|]. split; [reflexivity|].
+  vm_compute in E0, E1. inversion E0; subst. inversion E1; subst. vm_compute. repeat split.
+Qed.
+
+(* forgetting on an unpinned copy of an agent set, and on the pinned original *)
+Example C19_example_forget :
+  let w := wrun_states (init_world ex_set_case) [Inner (SCopy 0 0); SForget 1; SForget 0] in
+  map (set_labels (st_heap (w_st w))) (st_sets (w_st w)) = [[3; 1; 2]; []] /\ w_setpin w = [true; false].
+Proof. vm_compute. split; reflexivity. Qed.
